@@ -5,7 +5,7 @@ import LyModel.Yin.Parse
 Core Lean only: the driver evaluates `yinOk` on every generated tree (`yinok` op).
 -/
 namespace LyModel.Yin
-open LyModel LyModel.Generated
+open LyModel LyModel.Generated LyModel.XmlLex
 
 /-- ASCII identifier bytes (what YANG identifiers, prefixes and keywords are made of) -/
 def identStartB (b : UInt8) : Bool := (65 ≤ b && b ≤ 90) || (97 ≤ b && b ≤ 122) || b == 95
